@@ -5,7 +5,7 @@ Same policy as everywhere: FAIL names a positively wrong construct; a shape
 that is not recognised yields nothing or UNDECIDED."""
 import ast
 
-from .core import (norm, walk_local, call_name, calls_in, kwarg, const_int,
+from .core import (norm, walk_local, call_name, calls_in, kwarg, const_int, dotted,
                    helper_closure, resolve_local_call, stmts_of,
                    enclosing_stmt_map)
 from .dataflow import local_defs, names_in, closure_names
@@ -168,6 +168,14 @@ def omitted_forward(repo, col, shorts):
             own = set(f.params) - {"self", "cls"}
             if not own:
                 continue
+            direct = set()
+            for c in calls_in(f.node):
+                for x in list(c.args) + [k.value for k in c.keywords]:
+                    if isinstance(x, ast.Name):
+                        direct.add(id(x))
+            consumed = {x.id for x in ast.walk(f.node)
+                        if isinstance(x, ast.Name) and x.id in own and
+                        isinstance(x.ctx, ast.Load) and id(x) not in direct}
             for c in calls_in(f.node):
                 h = resolve_pkg_call(f, c)
                 if h is None or h is f:
@@ -186,7 +194,19 @@ def omitted_forward(repo, col, shorts):
                              if d is not None}
                 bound = set(params[:len(c.args)]) | \
                     {k.arg for k in c.keywords if k.arg}
+                # the option travels inside another argument (a parameter
+                # object built from it, a dict of options, ...)
+                argnames = set()
+                for x in list(c.args) + [k.value for k in c.keywords]:
+                    argnames |= names_in(x)
+                carried = closure_names(f.node, argnames)
                 for p in sorted((with_def - bound) & own):
+                    if p in carried and p not in argnames:
+                        continue
+                    if p in consumed:
+                        # the caller acts on the option itself (tests it,
+                        # computes with it): not a pure pass-through
+                        continue
                     # only when the caller's p is otherwise unused or is
                     # forwarded by name elsewhere: it is the same option
                     n += 1
@@ -1208,3 +1228,379 @@ def param_reordered_in_place(repo, col, shorts):
                             "new order" % (norm(c)[:30], p), node=c)
     col.add(rule, "package", "%d in-place re-orderings" % n, True, "",
             nontrivial=False)
+
+
+# ---------------------------------------------------------------------
+# "gzip" in the sharding specification means gzip framing (RFC 1952), which
+# is what a reader written from the specification decodes; zlib.compress
+# writes a zlib stream (RFC 1950), which gzip decoders reject  (C04)
+# ---------------------------------------------------------------------
+def gzip_framing(repo, col, shorts=("sharded_base", "sharded_file_accessor")):
+    rule = "E-SPEC.sharded.gzip-framing"
+    n = 0
+
+    def wbits_of(call, pos):
+        v = kwarg(call, "wbits")
+        if v is None and len(call.args) > pos:
+            v = call.args[pos]
+        return v
+
+    for ms in shorts:
+        try:
+            m = repo.module(ms)
+        except Exception:
+            continue
+        for fn in m.functions.values():
+            for c in calls_in(fn.node):
+                nm = dotted(c.func) or ""
+                full = m.resolve(nm) or nm
+                if full in ("gzip.compress", "gzip.GzipFile", "gzip.open"):
+                    n += 1
+                    col.add(rule, m.short, "%s: gzip framing" % full, True,
+                            loc=fn.loc(c))
+                    continue
+                if full == "zlib.compress":
+                    w = wbits_of(c, 2)
+                elif full == "zlib.compressobj":
+                    w = wbits_of(c, 3)
+                else:
+                    continue
+                n += 1
+                wv = const_int(w) if w is not None else 15
+                if wv is None:
+                    col.add(rule, m.short, "%s(wbits=%s)" % (full, norm(w)),
+                            True, "window-bits argument is not a constant",
+                            loc=fn.loc(c), undecided=True)
+                    continue
+                ok = 25 <= wv <= 31
+                col.add(rule, m.short, "%s: %s" % (
+                    full, "gzip framing" if ok else "zlib framing under 'gzip'"),
+                    ok, "" if ok else
+                    "the encoder for the \"gzip\" encoding of the sharding "
+                    "specification writes a zlib stream (RFC 1950, header "
+                    "78 9c), not gzip (RFC 1952, header 1f 8b): a reader "
+                    "implemented from the specification cannot decompress "
+                    "the minishard index / chunk data (in %s)" % fn.qualname,
+                    loc=fn.loc(c))
+    if n == 0:
+        col.add(rule, "sharded_base", "compression call of the 'gzip' encoding",
+                True, "no zlib / gzip compression call found in the sharded "
+                "writer modules", undecided=True)
+    return n
+
+
+# ---------------------------------------------------------------------
+# the bytes of a minishard index (built from the minishard's `header`
+# triples) go through the index codec: the reader decodes them with
+# minishard_index_encoding, whatever data_encoding says  (C04, C05)
+# ---------------------------------------------------------------------
+def index_bytes_use_index_codec(repo, col, shorts=("sharded_file_accessor",
+                                                    "sharded_base")):
+    from .core import attr_constants, expand_attrs
+    rule = "E-SIB.codec-role"
+    n = 0
+    for ms in shorts:
+        try:
+            m = repo.module(ms)
+        except Exception:
+            continue
+        for fn in m.functions.values():
+            table = attr_constants(repo, fn.cls) if fn.cls is not None else {}
+            defs = local_defs(fn.node)
+
+            def from_header(e):
+                names = names_in(e)
+                if any(isinstance(x, ast.Attribute) and x.attr == "header"
+                       for x in ast.walk(e)) or "header" in names:
+                    return True
+                for nm in closure_names(fn.node, names, defs):
+                    if nm == "header":
+                        return True
+                    for d in defs.get(nm, []):
+                        if d.value is not None and any(
+                                isinstance(x, ast.Attribute) and
+                                x.attr == "header"
+                                for x in ast.walk(d.value)):
+                            return True
+                return False
+            for c in calls_in(fn.node):
+                if not c.args or not from_header(c.args[0]):
+                    continue
+                f_ = c.func
+                kind = None
+                t = norm(expand_attrs(f_, table))
+                if t.endswith("index_encoder") or t == "index_encoder":
+                    kind = "index"
+                elif t.endswith("data_encoder"):
+                    kind = "data"
+                elif isinstance(f_, ast.Attribute) and f_.attr in (
+                        "encode", "compress") and \
+                        not isinstance(f_.value, ast.Constant):
+                    recv = norm(expand_attrs(f_.value, table))
+                    if recv in ("zlib", "gzip", "struct"):
+                        continue
+                    kind = "index" if "index" in recv else \
+                        "data" if "data" in recv else "other"
+                if kind is None:
+                    continue
+                n += 1
+                col.add(rule, fn, "%s(<minishard index>)" % t[:50],
+                        kind != "data",
+                        "" if kind == "index" else
+                        "the minishard index is encoded with the data codec "
+                        "(%s): readers decode it with minishard_index_encoding, "
+                        "so a dataset whose two encodings differ cannot be "
+                        "read" % t if kind == "data" else
+                        "codec of the minishard index not identified",
+                        node=c, undecided=kind == "other")
+    if n == 0:
+        col.add(rule, "sharded_file_accessor", "encoding of the minishard "
+                "index", True, "no encoder call on bytes derived from a "
+                "minishard `header` found", undecided=True)
+    return n
+
+
+# ---------------------------------------------------------------------
+# what is measured is what is written: a file offset advanced by len(V)
+# while the bytes written are encode(V) points past (or before) the data
+# as soon as the encoding changes the length  (C04, C05, C13)
+# ---------------------------------------------------------------------
+_ENC_WORDS = ("encode", "encoder", "compress")
+
+
+def measured_is_written(repo, col, shorts=("sharded_file_accessor",
+                                           "sharded_base")):
+    rule = "E-ORDER.measure-written"
+    n = 0
+    for ms in shorts:
+        try:
+            m = repo.module(ms)
+        except Exception:
+            continue
+        for fn in m.functions.values():
+            defs = local_defs(fn.node)
+            for c in calls_in(fn.node):
+                if not (isinstance(c.func, ast.Attribute) and
+                        c.func.attr == "write" and len(c.args) == 1):
+                    continue
+                w = c.args[0]
+                if not (isinstance(w, ast.Call) and len(w.args) == 1 and
+                        isinstance(w.args[0], ast.Name) and
+                        (call_name(w) or "").split(".")[-1].lower()
+                        .endswith(_ENC_WORDS)):
+                    continue
+                v = w.args[0].id
+                # V bound once (not re-bound to the encoded bytes)
+                if len([d for d in defs.get(v, []) if d.kind != "param"]) > 1:
+                    continue
+                measures = [x for x in walk_local(fn.node)
+                            if isinstance(x, ast.Call) and
+                            call_name(x) == "len" and len(x.args) == 1 and
+                            isinstance(x.args[0], ast.Name) and
+                            x.args[0].id == v and
+                            x.lineno >= c.lineno]
+                n += 1
+                col.add(rule, fn, "write(%s(%s)) / len(%s)" % (
+                    (call_name(w) or "").split(".")[-1], v, v), not measures,
+                    "" if not measures else
+                    "the bytes written are %s(%s) but the length recorded "
+                    "afterwards is len(%s), the length before encoding: with "
+                    "an encoding that changes the length (gzip) the offsets "
+                    "derived from it do not delimit what is in the file"
+                    % (call_name(w), v, v), node=c)
+    col.add(rule, "package", "%d writes of freshly encoded bytes" % n, True,
+            "", nontrivial=False)
+    return n
+
+
+# ---------------------------------------------------------------------
+# a file stored under a name with directories in it needs those directories:
+# every write-open of the plain-file accessor is preceded by the creation of
+# the parent directory  (C12)
+# ---------------------------------------------------------------------
+def store_creates_parents(repo, col):
+    from .core import specialise, enclosing_stmt_map
+    rule = "E-SIB.store.parents"
+
+    def is_mkdir(f, c):
+        nm = f.module.resolve(call_name(c) or "") or ""
+        if nm in ("os.makedirs", "os.mkdir"):
+            return True
+        return isinstance(c.func, ast.Attribute) and c.func.attr == "mkdir" \
+            and any(k.arg == "parents" and isinstance(k.value, ast.Constant)
+                    and k.value.value is True for k in c.keywords)
+
+    def is_wopen(f, c):
+        nm = f.module.resolve(call_name(c) or "") or ""
+        mode = None
+        if nm in ("open", "gzip.open", "gzip.GzipFile", "io.open") or \
+                (isinstance(c.func, ast.Attribute) and c.func.attr == "open"
+                 and nm != "os.open") or \
+                (isinstance(c.func, ast.Name) and c.func.id in f.params):
+            for a in list(c.args) + [k.value for k in c.keywords]:
+                t = norm(a)
+                if isinstance(a, ast.Constant) and isinstance(a.value, str) \
+                        and a.value[:1] in ("w", "x", "a"):
+                    mode = a.value
+                elif "'wb'" in t or "'xb'" in t or t in ("mode",):
+                    mode = t
+            return mode is not None
+        return False
+
+    def summary(f, depth=0):
+        """(opens, every path to each open passes a mkdir) for f, following
+        calls to package helpers specialised to their constant arguments."""
+        cfg = f.cfg()
+        owner = enclosing_stmt_map(f.node)
+        mk, opens, undecided = [], [], False
+        for c in calls_in(f.node):
+            st = owner.get(id(c))
+            n_ = cfg.node_of(st) if st is not None else None
+            if n_ is None:
+                continue
+            if is_mkdir(f, c):
+                mk.append(n_)
+            elif is_wopen(f, c):
+                opens.append((n_, c, False))
+            elif depth < 2:
+                h = resolve_local_call(f, c)
+                if h is None or h.key == f.key:
+                    continue
+                hv = specialise(h, c, bound=isinstance(c.func, ast.Attribute))
+                if hv is None:
+                    continue
+                sub = summary(hv, depth + 1)
+                if sub is None:
+                    continue
+                h_opens, h_ok, h_mk_all = sub
+                if h_mk_all:
+                    mk.append(n_)       # the helper always creates parents
+                if h_opens:
+                    opens.append((n_, c, h_ok))
+        if not opens:
+            # does every normal path create the parents?
+            all_mk = bool(mk) and cfg.every_path_passes(cfg.entry, cfg.exit,
+                                                        mk)
+            return [], True, all_mk
+        ok = True
+        for n_, c, inner_ok in opens:
+            if inner_ok:
+                continue
+            if not mk or not cfg.every_path_passes(cfg.entry, n_, mk):
+                ok = False
+        all_mk = bool(mk) and cfg.every_path_passes(cfg.entry, cfg.exit, mk)
+        return opens, ok, all_mk
+
+    for mname in ("store_file", "store_chunk"):
+        fn = repo.func("file_accessor", "FileAccessor." + mname)
+        opens, ok, _ = summary(fn)
+        if not opens:
+            col.add(rule, fn, "parent directory created before the file is "
+                    "opened", True, "no write-open recognised in %s or its "
+                    "helpers" % fn.key, undecided=True)
+            continue
+        col.add(rule, fn, "parent directory created before the file is "
+                "opened", ok, "" if ok else
+                "a path opens the output file without having created its "
+                "parent directory: storing `a/b` in a dataset directory that "
+                "has no `a` yet fails", node=opens[0][1])
+
+
+# ---------------------------------------------------------------------
+# a plain pathname is used as it is; only a file:// URL is percent-decoded:
+# `scan%20A` is a legal directory name  (C12)
+# ---------------------------------------------------------------------
+def percent_decoding_only_for_file_urls(repo, col, short="accessor"):
+    from .core import enclosing_stmt_map, expand_properties
+    from .dataflow import holds
+    rule = "E-SIB.url.plain-path"
+    try:
+        m = repo.module(short)
+    except Exception:
+        return 0
+    n = 0
+    for fn in m.functions.values():
+        sites = [c for c in calls_in(fn.node)
+                 if (m.resolve(call_name(c) or "") or "") in (
+                     "urllib.request.url2pathname", "urllib.parse.unquote",
+                     "urllib.parse.unquote_plus",
+                     "urllib.parse.unquote_to_bytes")]
+        if not sites:
+            continue
+        cfg = fn.cfg()
+        owner = enclosing_stmt_map(fn.node)
+        for c in sites:
+            st = owner.get(id(c))
+            tn = cfg.node_of(st) if st is not None else None
+            if tn is None:
+                continue
+            allowed, excluded, seen = None, set(), False
+            for tnode in cfg.nodes:
+                if tnode.kind != "test" or tnode.ast is None or tnode is tn:
+                    continue
+                test = getattr(tnode.ast, "test", None)
+                if test is None:
+                    continue
+                test = expand_properties(repo, m, test)
+                if "scheme" not in norm(test):
+                    continue
+                via = set()
+                for s in tnode.succ:
+                    tag = cfg.branch.get((tnode.id, s.id))
+                    if tag in (True, False) and (
+                            s.id == tn.id or tn.id in cfg.reachable(s)):
+                        via.add(tag)
+                if len(via) != 1 or not cfg.every_path_passes(
+                        cfg.entry, tn, [tnode]):
+                    continue
+                for a in holds(test, via.pop()):
+                    for b in (a, a.flipped()):
+                        if not norm(b.left).endswith("scheme"):
+                            continue
+                        vals = None
+                        if isinstance(b.right, ast.Constant) and \
+                                isinstance(b.right.value, str):
+                            vals = {b.right.value}
+                        elif isinstance(b.right, (ast.Tuple, ast.List,
+                                                  ast.Set)) and all(
+                                isinstance(e, ast.Constant)
+                                for e in b.right.elts):
+                            vals = {e.value for e in b.right.elts}
+                        elif isinstance(b.right, (ast.Name, ast.Attribute)):
+                            v = None
+                            if isinstance(b.right, ast.Name):
+                                v = m.const(b.right.id)
+                            elif isinstance(b.right.value, ast.Name) and \
+                                    b.right.value.id in ("self", "cls") and \
+                                    fn.cls is not None:
+                                for cc in repo.mro(fn.cls):
+                                    if b.right.attr in cc.class_attrs:
+                                        v = cc.class_attrs[b.right.attr]
+                                        break
+                            if isinstance(v, (ast.Tuple, ast.List, ast.Set)) \
+                                    and all(isinstance(e, ast.Constant)
+                                            for e in v.elts):
+                                vals = {e.value for e in v.elts}
+                        if vals is None:
+                            continue
+                        seen = True
+                        if b.op in ("==", "in"):
+                            allowed = vals if allowed is None \
+                                else allowed & vals
+                        elif b.op in ("!=", "not in"):
+                            excluded |= vals
+            n += 1
+            plain_possible = ("" not in excluded) and (
+                allowed is None or "" in allowed)
+            col.add(rule, fn, norm(c)[:60], not (seen and plain_possible),
+                    "" if not plain_possible else
+                    "the path is percent-decoded on a path where the scheme "
+                    "may be empty (%s): a plain pathname such as `scan%%20A` "
+                    "is turned into another name" % (
+                        "scheme in %s" % sorted(allowed) if allowed
+                        else "no test excludes it"),
+                    node=c, undecided=not seen)
+    if n == 0:
+        col.add(rule, short, "percent-decoding of URL paths", True,
+                "no url2pathname / unquote call in %s" % short, undecided=True)
+    return n
